@@ -122,6 +122,8 @@ type Cluster struct {
 	Handler func(rq *Request) Response
 	// MissingKeyspaces makes `USE ks` fail with an Invalid error.
 	MissingKeyspaces map[string]bool
+	// SlowKeyspaces makes `USE ks` take that long to be answered (the connection stays responsive meanwhile).
+	SlowKeyspaces map[string]time.Duration
 	OnConnect        func(c *Conn)
 	// OptionsHandler may override the answer to OPTIONS (heart-beats).
 	OptionsHandler func(c *Conn, header *frame.Header) (Response, bool)
@@ -191,6 +193,22 @@ func (cl *Cluster) Log() []*Request {
 
 // SetAfterRegister installs (or clears) the AfterRegister hook while nodes are serving.
 func (cl *Cluster) SetAfterRegister(f func(c *Conn)) { cl.mu.Lock(); cl.AfterRegister = f; cl.mu.Unlock() }
+
+// SetSlowKeyspace makes `USE <name>` take d to be answered.
+func (cl *Cluster) SetSlowKeyspace(name string, d time.Duration) {
+	cl.mu.Lock()
+	if cl.SlowKeyspaces == nil {
+		cl.SlowKeyspaces = map[string]time.Duration{}
+	}
+	cl.SlowKeyspaces[name] = d
+	cl.mu.Unlock()
+}
+
+// SetMissingKeyspace makes `USE <name>` fail from now on.
+func (cl *Cluster) SetMissingKeyspace(name string) { cl.mu.Lock(); cl.MissingKeyspaces[name] = true; cl.mu.Unlock() }
+
+// SetOnConnect installs a callback that sees every accepted connection before it is served.
+func (cl *Cluster) SetOnConnect(f func(c *Conn)) { cl.mu.Lock(); cl.OnConnect = f; cl.mu.Unlock() }
 
 func (cl *Cluster) LogLen() int { cl.mu.Lock(); defer cl.mu.Unlock(); return len(cl.log) }
 
@@ -323,8 +341,11 @@ func (n *Node) accept(ln net.Listener) {
 		}
 		n.conns[conn] = struct{}{}
 		n.mu.Unlock()
-		if n.cl.OnConnect != nil {
-			n.cl.OnConnect(conn)
+		n.cl.mu.Lock()
+		onConnect := n.cl.OnConnect
+		n.cl.mu.Unlock()
+		if onConnect != nil {
+			onConnect(conn)
 		}
 		go conn.serve()
 	}
@@ -465,7 +486,18 @@ func (c *Conn) handle(rawHdr, rawBody []byte) {
 				}
 				cl.mu.Lock()
 				missing := cl.MissingKeyspaces[canon]
+				slow := cl.SlowKeyspaces[canon]
 				cl.mu.Unlock()
+				if slow > 0 {
+					go func() {
+						time.Sleep(slow)
+						c.mu.Lock()
+						c.keyspace = canon
+						c.mu.Unlock()
+						_ = c.Send(header.Version, header.StreamId, &message.SetKeyspaceResult{Keyspace: canon})
+					}()
+					return
+				}
 				if missing || canon == "" { // Cassandra rejects the empty keyspace name
 					_ = c.Send(header.Version, header.StreamId, &message.Invalid{ErrorMessage: fmt.Sprintf("Keyspace '%s' does not exist", canon)})
 				} else {
